@@ -46,7 +46,9 @@ pub async fn dummy_connection(addr: SocketAddr) -> Result<DummyConnection, Strin
 
 struct SynthTarget {
     idx: usize,
-    conn: Option<Arc<Connection>>,
+    conn: Arc<Connection>,
+    /// Number of `get_connection` calls that still succeed (`usize::MAX` = all of them).
+    ok_calls: Cell<usize>,
     current: Rc<Cell<usize>>,
 }
 
@@ -54,14 +56,16 @@ impl AttemptTarget for SynthTarget {
     type Coordinator = usize;
 
     async fn get_connection(&self) -> Result<Arc<Connection>, ConnectionPoolError> {
-        match &self.conn {
-            Some(c) => {
-                // No await separates this from the `run_request_once` call in the fiber.
-                self.current.set(self.idx);
-                Ok(Arc::clone(c))
-            }
-            None => Err(ConnectionPoolError::Initializing),
+        let left = self.ok_calls.get();
+        if left == 0 {
+            return Err(ConnectionPoolError::Initializing);
         }
+        if left != usize::MAX {
+            self.ok_calls.set(left - 1);
+        }
+        // No await separates this from the `run_request_once` call in the fiber.
+        self.current.set(self.idx);
+        Ok(Arc::clone(&self.conn))
     }
 
     fn coordinator(&self, _connection: &Arc<Connection>) -> usize {
@@ -110,6 +114,24 @@ pub async fn run_request<Fut>(
 where
     Fut: Future<Output = Result<(), RequestAttemptError>>,
 {
+    let plan = plan
+        .into_iter()
+        .map(|ok| if ok { usize::MAX } else { 0 })
+        .collect();
+    run_request_calls(params, conn, plan, run_once).await
+}
+
+/// Like [`run_request`], but `plan[i]` is the number of `get_connection` calls that succeed
+/// on target `i` (`usize::MAX` = always, `0` = never); later calls fail to choose a connection.
+pub async fn run_request_calls<Fut>(
+    params: ExecParams<'_>,
+    conn: &DummyConnection,
+    plan: Vec<usize>,
+    run_once: impl Fn(usize, Consistency) -> Fut,
+) -> Result<ExecOutcome, RequestError>
+where
+    Fut: Future<Output = Result<(), RequestAttemptError>>,
+{
     let metrics = Arc::new(Metrics::new());
     let exec_params = RequestExecutionParams {
         is_idempotent: params.is_idempotent,
@@ -126,9 +148,10 @@ where
     let targets: Vec<SynthTarget> = plan
         .into_iter()
         .enumerate()
-        .map(|(idx, ok)| SynthTarget {
+        .map(|(idx, ok_calls)| SynthTarget {
             idx,
-            conn: ok.then(|| Arc::clone(&conn.0)),
+            conn: Arc::clone(&conn.0),
+            ok_calls: Cell::new(ok_calls),
             current: Rc::clone(&current),
         })
         .collect();
